@@ -29,11 +29,13 @@ def main():
     rc_t, out_t = sh([PY, '-m', 'pytest', '-q', '-p', 'no:cacheprovider', '-x'], cwd=wt)
     tests_ok = rc_t == 0 and '846 passed' in out_t
     rc_d, out_d = sh([PY, os.path.join(seed, 'demo.py')], cwd=wt)
-    sh('git stash', cwd=wt)
+    # (git stash is shared between worktrees: use the patch itself to remove / re-apply the change)
+    sh('git diff -- pamqp > /tmp/wt/.cur_%s.diff' % os.path.basename(wt), cwd=wt)
+    sh('git apply -R /tmp/wt/.cur_%s.diff' % os.path.basename(wt), cwd=wt)
     try:
         rc_c, out_c = sh([PY, os.path.join(seed, 'demo.py')], cwd=wt)
     finally:
-        sh('git stash pop', cwd=wt)
+        sh('git apply /tmp/wt/.cur_%s.diff' % os.path.basename(wt), cwd=wt)
     confirmed = tests_ok and rc_d != 0 and rc_c == 0
     env = dict(os.environ)
     env['VERIF_REPO'] = wt
